@@ -220,7 +220,7 @@ def children_are_direct(ctx):
                       "addChildrenToCacheAndGet creates child contexts below %s, not (only) below its argument: it can hand out cgroups that are not direct "
                       "children, so the kill walk skips levels - and with them the memory.oom.group test of the skipped cgroups" % (Expander(P, g)(a[0]) if a else "?"))
             nm = Expander(P, g)(a[1]) if len(a) > 1 else ""
-            m = re.match(r"^elem\(\*(.+)\.children\([^)]*\)\)$", nm)
+            m = re.match(r"^elem\(\*(.+)\.children\([^)]*\)\)$", nm) or re.match(r"^elem\((.+)\.children\([^)]*\)\.value\(\)\)$", nm)
             okn = False
             if m:
                 for j in g.calls("children"):
